@@ -27,6 +27,10 @@ ASSUMPTIONS = [
 NONTRIVIAL_FLOOR = {"quick": 200, "thorough": 2000}
 
 
+# thorough tier: coverage-guided (atheris) drive of the same generator and oracle: kind -> (shards, cases per shard)
+FUZZ = {"generated": (8, 1500)}
+
+
 def plan(tier):
     total = 3000 if tier == "quick" else 50000
     return [("generated", 16, total // 16)]
